@@ -37,7 +37,9 @@ type ExprCondition struct {
 	tolerant     *vm.Program
 }
 
-func NewExprCondition(expression string) (Condition, error) {
+// baseOptions returns the compile options every program of this package starts
+// from: the helper functions SQL syntax is lowered to and the StreamSQL built-ins.
+func baseOptions() []expr.Option {
 	// Add custom string function support (startsWith, endsWith, contains are built-in operators)
 	options := []expr.Option{
 		expr.Function("like_match", func(params ...any) (any, error) {
@@ -66,7 +68,11 @@ func NewExprCondition(expression string) (Condition, error) {
 		expr.AllowUndefinedVariables(),
 	}
 	// 注入 StreamSQL 内置函数，使 WHERE/HAVING/OVER-WHEN 等条件可调用 to_seconds/now/abs 等
-	options = append(options, functions.GetExprBridge().RegisterStreamSQLFunctionsToExpr()...)
+	return append(options, functions.GetExprBridge().RegisterStreamSQLFunctionsToExpr()...)
+}
+
+func NewExprCondition(expression string) (Condition, error) {
+	options := baseOptions()
 
 	// options (without AsBool) are kept for the NULL-tolerant variant, whose
 	// result may be NULL (unknown) as well as true or false
